@@ -331,6 +331,15 @@ func (p *Prog) checkCastValue(r *Report, rule string, fn *ssa.Function, mu *ssa.
 	} else {
 		r.Bad(rule, n, what+" passes through the cast function", p.Pos(mu.Pos()), "cast() is not given the decoder's cast flag")
 	}
+	// the tag handed to cast (consulted by the skip-tag function) is the key the value is stored under
+	cz := p.canonFor(fn)
+	if len(c.Call.Args) >= 3 {
+		if cz.of(c.Call.Args[2]) == cz.of(mu.Key) {
+			r.OK(rule, n, what+": cast tag is the storage key", p.Pos(mu.Pos()), "")
+		} else {
+			r.Bad(rule, n, what+": cast tag is the storage key", p.Pos(mu.Pos()), "cast() is told tag "+cz.of(c.Call.Args[2])+" but the value is stored under "+cz.of(mu.Key)+": SetCheckTagToSkipFunc is consulted with the wrong key")
+		}
+	}
 	ti := p.influence(fn, true, c.Call.Args[0])
 	if miss := ti.hasGlobals(p, opts...); len(miss) == 0 {
 		r.OK(rule, n, what+" depends on "+strings.Join(opts, ","), p.Pos(mu.Pos()), "")
